@@ -218,6 +218,9 @@ def run(chk):
         emit(chk, names, refs3, res, Symbol(f"Xgs{n}"), [],
              f"gs:re-expectation({n},1)", what, True)
     chk.judge_with_header({"op": "globals", "gm": gm3}, chk.events[first:])
+    # the pure helper functions behind this property (spec/Helpers.tla)
+    from .helpers import run_helpers
+    run_helpers(chk, ('norm', 'gto'))
     return chk.finish(
         rule="each derived ground-state quantity (energies 0..K+1, amplitudes "
              "of every class and order <= K incl. permuted / renamed index "
